@@ -484,7 +484,7 @@ def random_pi_project(rng):
     # (checked under the analysis' assumption that parameter objects alias neither each other nor the stack frame)
     ptr_regs = rng.choice([[], [], ["RDI"], ["RDI", "RSI"], ["RSI"]])
     dst_regs = [r for r in PI_REGS if r not in ptr_regs]
-    small = lambda: C(rng.choice([0, 1, 2, 3, 4, 5, 7, 8, 10, 16, 100, 0xFF, 0xFFFFFFFFFFFFFFFF, 0xFFFFFFFFFFFFFFF8, 0x7FFFFFFFFFFFFFFF, 0x8000000000000000, rng.randrange(0, 64)]))  # noqa: E731
+    small = lambda: C(rng.choice([0, 1, 2, 3, 4, 5, 7, 8, 10, 16, 100, 0xFF, 0x300, 0x500, 0x5000, 0xFFFFFFFFFFFFFFFF, 0xFFFFFFFFFFFFFFF8, 0x7FFFFFFFFFFFFFFF, 0x8000000000000000, rng.randrange(0, 64)]))  # noqa: E731
 
     def stack_addr():
         base = "RBP" if (use_rbp and rng.random() < 0.5) else "RSP"
@@ -514,6 +514,10 @@ def random_pi_project(rng):
             return assign(ids, dst, param_addr())
         if r < 0.18:
             return assign(ids, dst, small())
+        if r < 0.23:
+            # load through an arbitrary register (+ constant): loads cannot clobber tracked memory, whatever the register holds
+            a = V(rng.choice(PI_REGS))
+            return load(ids, dst, a if rng.random() < 0.5 else B("IntAdd", a, C(rng.choice([8, 16, 0x100, 0x400]))))
         if r < 0.42:
             return assign(ids, dst, B(rng.choice(["IntAdd", "IntSub", "IntAdd", "IntMult", "IntAnd", "IntOr", "IntXOr", "IntLeft", "IntRight"]), V(rng.choice(PI_REGS)), small()))
         if r < 0.52:
@@ -545,6 +549,18 @@ def random_pi_project(rng):
     def cmp_expr():
         op = rng.choice(["IntEqual", "IntNotEqual", "IntLess", "IntSLess", "IntLessEqual", "IntSLessEqual"])
         a, b = V(rng.choice(PI_REGS)), small()
+        if rng.random() < 0.15:
+            # comparison of a truncated (and possibly re-extended) register, as compilers emit for 32-bit/8-bit tests
+            sz = rng.choice([4, 4, 2, 1])
+            a = SUBP(0, sz, a)
+            if rng.random() < 0.3:
+                a = CAST(rng.choice(["IntZExt", "IntSExt"]), 8, a)
+            else:
+                b = C(rng.choice([0, 0, 1, 5, 0xFF, (1 << (8 * sz)) - 1, 1 << (8 * sz - 1)]) & ((1 << (8 * sz)) - 1), sz)
+            if rng.random() < 0.3:
+                a, b = b, a
+            e = B(op, a, b)
+            return U("BoolNegate", e) if rng.random() < 0.15 else e
         if rng.random() < 0.3:
             a, b = b, a
         if rng.random() < 0.15:
